@@ -19,9 +19,9 @@ ASSUMPTIONS = [
     "linearisations are the ones observed on MemBackend (the packers' writer threads are real threads)",
     "a blob listed by an index entry is in the pack file (index truthful) — established for the generated states by check(read_data) before the command",
 ]
-RULE = ("one op line per (command, seed): commands backup, forget, prune (non-instant: deletes packs marked by an earlier prune, repacks, marks; options by seed), "
+RULE = ("one op line per (command, seed): commands backup, forget, prune (non-instant: deletes packs marked by an earlier prune, repacks, marks; repack-all / fast-repack / max-unused / keep-delete 0 or one day by seed), "
         "prune-instant (no early-delete-index), prune-early (early-delete-index WITHOUT instant-delete: inside the property, inert in the code; for the three prune "
-        "commands EVERY operation is a crash and a fault point also in quick), merge, copy (into a non-empty destination), rewrite (glob by seed, with forget), repair snapshots (after losing a "
+        "commands EVERY operation is a crash and a fault point also in quick), merge, copy (into a non-empty destination), rewrite (glob by seed, with or without forget), repair snapshots (after losing a "
         "data pack), repair index --read-all, repair index (without --read-all, on the state an interrupted prune leaves: packs listed by two index files), config change (OneConfigBackend), key add, key remove; states from 2-4 backups of an evolving source with small "
         "pack sizes; plus `c03 big`: a backup of more than MAX_COUNT (50 000) tiny blobs so that the indexer auto-saves an index file mid-run, faults on the pack "
         "writes / index write around the auto-save, oracles: every listed pack exists, check(read_data), retry of the backup is clean and reads back. The trace (embedded at generation time from a real run) is judged by the Lean monitor at EVERY prefix; "
